@@ -26,4 +26,24 @@ extern void vr_cas2_post(volatile void* loc, const void* orig, const void* nw, i
     vr_cas2_post((l), (o), (n), vr_r_);                 \
     vr_r_;                                              \
   })
+
+#ifdef VR_WSD_WRAP
+/* run-queue API events: wrap the CALL SITES of the deque API (only the translation unit of
+ * fiber_scheduler_wsd.c is compiled with -DVR_WSD_WRAP; the deque's own definitions are not). */
+#include "work_stealing_deque.h"
+#ifdef __cplusplus
+extern "C" {
+#endif
+extern void vr_rq_push(void* d, void* p);
+extern void* vr_rq_pop(void* d, void* r);
+extern void* vr_rq_steal(void* d, void* r);
+#ifdef __cplusplus
+}
+#endif
+#define wsd_work_stealing_deque_push_bottom(d, p) \
+  (vr_rq_push((d), (p)), wsd_work_stealing_deque_push_bottom((d), (p)))
+#define wsd_work_stealing_deque_pop_bottom(d) \
+  vr_rq_pop((d), wsd_work_stealing_deque_pop_bottom((d)))
+#define wsd_work_stealing_deque_steal(d) vr_rq_steal((d), wsd_work_stealing_deque_steal((d)))
+#endif
 #endif
